@@ -152,7 +152,7 @@ class Token(str):
         pos = self.pos
         for i, s in enumerate(l_):
             l_[i] = Token(s, pos, self.source, self.filename)
-            pos += len(s)
+            pos += len(s) + (len(sep) if sep is not None else 0)
         return cast('list[Token]', l_)
 
     def strip(self, chars: str | None = None, /) -> Token:
